@@ -21,7 +21,15 @@ PROP = dict(search_rounds=1,
          "slice index -1..len+1, free-standing components, wrapped int ids; every record carries ToJSON() after the call; "
          "topo.alias records: after a getter the harness writes through the returned value (Sub[0].X++ / Disp.W++ / TypeOverride.W++), records whether "
          "ToJSON() changed, undoes the write — the store-of-cells model predicts each outcome (shared base-type array, shared override cell, "
-         "free-standing override = not topology storage); topo.jsonraw: the raw bytes of ToJSON() against the model's text layer; rotations incl. negative zero; a record "
+         "free-standing override = not topology storage); HISTORIES on the same Topology object: after the look-ups of a session 1-3 steps, each followed by all "
+         "look-ups again (every id, every index): topo.assign - a changed value (a component's override set / altered / removed, a component removed / inserted / "
+         "retyped / renumbered onto another id / moved / swapped with another, an index entry altered / removed / added, the title, two changes in a row, the "
+         "session's first topology again, rarely a different topology) is written into the EXISTING object through its exported fields, with new cells or reusing "
+         "the existing ones; topo.wedit - a getter is called and the caller edits what it was handed without undoing it (own: every field of the returned struct "
+         "overwritten; ownrefs: its Disp/Sub pointed at new cells; sub/disp/ov: through the shared references), the record carries the topology read back "
+         "through the exported fields, which the store-of-cells model predicts and against which every later answer is judged; CleanSections / RandomizeTypes "
+         "between look-ups; topo.pred2: the predicates twice on ONE definition object whose fields are assigned in between; every argument OBJECT passed to the "
+         "library (free-standing component, the definition the predicates are asked about) is compared with a deep copy taken before the call (argmod); topo.jsonraw: the raw bytes of ToJSON() against the model's text layer; rotations incl. negative zero; a record "
          "is non-trivial when the look-up returned something other than the not-found/empty answer (alias: something to write through); distinct = distinct record text, "
          "where every record carries a fingerprint (`#xxxxxxxx`, ignored by executor and driver) of the topology it runs on",
     trusted_base=["ToJSON() after each call is compared as re-tokenised by Go's own json.Decoder (canonical text); the raw bytes are compared with the model's text layer on topo.jsonraw records (valid UTF-8 strings)",
@@ -32,7 +40,7 @@ PROP = dict(search_rounds=1,
 )
 
 CLAIM = dict(
-    text="Lean theorems (Props/C13.lean, 30 audited). Value level - C13.lookup_holds: for every topology (any component list incl. duplicate ids, type 0, types missing from the index; any type index; every combination of the 11 override attributes) and every look-up of the interface (GetHWCs, GetHWCxy, GetHWCtext, GetHWCtype, GetHWCsWithDisplay, GetTypeDefWithOverride, GetHWCTypeDefinition[FromHWCid], GetHWCDefinitionFromHWCid, the predicates) the answer satisfies Spec.Topo.checkLookup: resolved definition = attribute-wise overlay of the override on the indexed base type, documented not-found results for unknown ids, both resolvers agree on the nine shared attributes when the type is indexed, and the topology (hence its serialised form) is unchanged; C13.preds_meet_spec: every derived predicate has the value of the Spec's independent reading (input kind = first comma-separated token, characterised relationally; kind lists; LED on whole strings; steps = index span; LED-bar steps on 'contains'), C13.predicates_depend_only_on_resolved: equal resolved definitions give equal predicate values. C13.resolveB_eq states exactly what the second resolver returns (overlay with description/render hints of the base type), resolvers_on_unindexed + counterexample pin the divergence for unindexed types, resolveBid_wraps / resolveBid_minus_one say what int ids outside uint32 do (-1 is id 4294967295), not_found_results gives the exact not-found answers incl. the error text. Reference level (store-of-cells model of the TypeOverride/Disp pointers and Sub backing arrays): execR_refines (the value model is its abstraction), lookups_write_no_cell + lookups_do_not_mutate_heap (a look-up only allocates; every existing cell and hence ToJSON() unchanged), returned_refs_alias_storage + alias_hazard_* (the returned definition shares Disp/Sub cells with the topology: a caller writing through it changes ToJSON() - documented hazard, observed on the implementation and predicted record by record). The same predicates are evaluated on the real library's answers (incl. ToJSON() after every call); model = code is checked by running both on generated topologies.",
+    text="Lean theorems (Props/C13.lean, 32 audited). Value level - C13.lookup_holds: for every topology (any component list incl. duplicate ids, type 0, types missing from the index; any type index; every combination of the 11 override attributes) and every look-up of the interface (GetHWCs, GetHWCxy, GetHWCtext, GetHWCtype, GetHWCsWithDisplay, GetTypeDefWithOverride, GetHWCTypeDefinition[FromHWCid], GetHWCDefinitionFromHWCid, the predicates) the answer satisfies Spec.Topo.checkLookup: resolved definition = attribute-wise overlay of the override on the indexed base type, documented not-found results for unknown ids, both resolvers agree on the nine shared attributes when the type is indexed, and the topology (hence its serialised form) is unchanged; C13.preds_meet_spec: every derived predicate has the value of the Spec's independent reading (input kind = first comma-separated token, characterised relationally; kind lists; LED on whole strings; steps = index span; LED-bar steps on 'contains'), C13.predicates_depend_only_on_resolved: equal resolved definitions give equal predicate values. C13.resolveB_eq states exactly what the second resolver returns (overlay with description/render hints of the base type), resolvers_on_unindexed + counterexample pin the divergence for unindexed types, resolveBid_wraps / resolveBid_minus_one say what int ids outside uint32 do (-1 is id 4294967295), not_found_results gives the exact not-found answers incl. the error text. Reference level (store-of-cells model of the TypeOverride/Disp pointers and Sub backing arrays): execR_refines (the value model is its abstraction), lookups_write_no_cell + lookups_do_not_mutate_heap (a look-up only allocates; every existing cell and hence ToJSON() unchanged), returned_refs_alias_storage + alias_hazard_* (the returned definition shares Disp/Sub cells with the topology: a caller writing through it changes ToJSON() - documented hazard, observed on the implementation and predicted record by record), caller_edit_of_own_copy_keeps_topology (whatever a caller writes into the struct a look-up handed it - every field, or new Disp/Sub cells - changes no cell of the topology: serialised form and every later answer unchanged). HISTORIES are checked on the implementation: on ONE Topology object look-ups, then a change (through the exported fields, through CleanSections / RandomizeTypes, or an edit of a value handed out earlier), then all look-ups again - each answer is judged by Spec.Topo.checkLookup against the topology as it then stands (read back through the exported fields), so an answer that reflects an earlier look-up instead of a fresh resolution is an overlay / notfound / withdisplay / preds violation. The same predicates are evaluated on the real library's answers (incl. ToJSON() after every call); model = code is checked by running both on generated topologies.",
     note=TB + "float printing trusted (tokens); negative slice indices (the second resolver panics: resolveB_negative_index_panics) are outside the Spec's domain; int ids outside uint32 are covered through resolveBid_wraps (looked up as their residue).",
     technique="Lean 4 proof (induction over the component list / type index, per-attribute overlay lemmas, heap-extension frame lemmas for the store-of-cells refinement) + model/implementation correspondence incl. aliasing observations",
 )
